@@ -321,8 +321,12 @@ func c17Check(e *env, batch []c17Pending) {
 			}
 		}
 		// ---- token correspondence: the real scanner reads the real String() as the items
-		//      the Spec's tokens_of gives for this tree (this is the step the theorems
-		//      leave to the correspondence) ----
+		//      the Spec's tokens_of gives for this tree.  For expressions this is also a
+		//      theorem about the scanner MODEL (Properties/LexPrint.v lex_expr_print, used by
+		//      C17_text_roundtrip): here it ties that model's claim to the real scanner.
+		//      Likewise for print commands (C17_lex_print_command).  What rests on the
+		//      correspondences alone: beginTag's dispatch to parsePrint, and spellings other
+		//      than the printer's own ----
 		if b.class == "ok" && !c17Unsafe(strings.TrimSuffix(printed[i], "}")) {
 			var lexed []parse.VerifItem
 			if b.c.Kind == "expr" {
